@@ -245,9 +245,13 @@ class BeapSearch(
             if S[0] != other.type:
                 continue
             local_bank = self._bank[S]
-            for programs in local_bank.values():
+            for cost_index, programs in local_bank.items():
                 if other in programs:
                     programs.remove(other)
+                    # an emptied cell is a valid cost index without programs,
+                    # not the end of the enumeration of S
+                    if len(programs) == 0:
+                        self._empties[S].add(cost_index)
 
     def probability(self, program: Program) -> float:
         return self.G.probability(program)
